@@ -133,6 +133,10 @@ RClear(ms, keep) ==
                ELSE [ms.ring EXCEPT !.kind = "empty", !.ptr = 0, !.store = <<>>]
   IN {Out([ms EXCEPT !.init = TRUE, !.cnt = 0, !.ring = ring1], [t |-> "ok"])}
 
+\* reducer.dt = x: the record is re-timed (offered only where its size cannot change: duration 0)
+\* and the decay is recomputed from the new step time: later folds age the state by x ticks
+RSetDt(ms, x) == {Out([ms EXCEPT !.ring.dtk = x], [t |-> "ok"])}
+
 TauOf(ms, o, E) == IF o.tens THEN o.tauv ELSE [e \in 1..E |-> o.tau]
 
 RApply(ms, o) ==
@@ -141,23 +145,29 @@ RApply(ms, o) ==
     [] o.a = "dump"  -> RDump(ms)
     [] o.a = "view"  -> RView(ms, TauOf(ms, o, IF Ready(ms.ring) THEN ElemsOf(ms.ring) ELSE 1), o.tol2)
     [] o.a = "clear" -> RClear(ms, o.keep)
+    [] o.a = "setdt" -> RSetDt(ms, o.x)
 
 (***************************************************************************)
 (* Abs.  as = [rk, n, dtk, hist]; hist = observations since the last clear, *)
 (* hist[j][e] the observation of element e at the j-th step.                *)
 (***************************************************************************)
-AInit(rk, dtk, durk, incl) == [rk |-> rk, n |-> RecordSize(dtk, durk, incl), dtk |-> dtk, hist |-> <<>>]
+\* steps[j] = length in ticks of the step that ended with the j-th observation
+AInit(rk, dtk, durk, incl) == [rk |-> rk, n |-> RecordSize(dtk, durk, incl), dtk |-> dtk, hist |-> <<>>, steps |-> <<>>]
+
+RECURSIVE SumFrom(_, _)
+SumFrom(sq, i) == IF i > Len(sq) THEN 0 ELSE sq[i] + SumFrom(sq, i + 1)     \* sq[i] + ... + sq[Len]
 
 MaxOf(S) == CHOOSE x \in S : \A y \in S : y <= x
 
 RECURSIVE SumX(_)
 SumX(h) == IF Len(h) = 0 THEN 0 ELSE h[1].x + SumX(Tail(h))
 
-\* the closed form after the observations h (of ONE element, oldest first, Len(h) >= 1)
-Closed(rk, h, D) ==
+\* the closed form after the observations h (of ONE element, oldest first, Len(h) >= 1);
+\* sp[j] the length in ticks of the step ending with observation j
+Closed(rk, h, sp) ==
   LET n == Len(h)
       M == {j \in 1..n : h[j].m}                                 \* the matching events
-      age(j) == (n - j) * D                                      \* t - t_f in ticks
+      age(j) == SumFrom(sp, j + 1)                               \* t - t_f in ticks
       amp(j) == IF rk \in ScaledKinds
                 THEN {Term("A", "q", age(j), 1)} \cup Mono("S", "q", age(j), h[j].x)
                 ELSE {Term("A", "q", age(j), 1)}
@@ -175,7 +185,7 @@ HElems(as) == IF Len(as.hist) = 0 THEN 0 ELSE Len(as.hist[1])
 \* the value recorded k steps ago (k = 0: the latest)
 Recorded(as, k, e) ==
   LET n == Len(as.hist) IN
-  IF k < n THEN Closed(as.rk, ElemHist(as, e, n - k), as.dtk) ELSE FillVal(as.rk)
+  IF k < n THEN Closed(as.rk, ElemHist(as, e, n - k), SubSeq(as.steps, 1, n - k)) ELSE FillVal(as.rk)
 RecordedRow(as, k) == [e \in 1..HElems(as) |-> Recorded(as, k, e)]
 
 \* the property's statement of a view at tau ticks before present
@@ -187,7 +197,8 @@ AViewElem(as, e, tau, tol2) ==
 AApplyR(as, o) ==
   LET n == Len(as.hist) IN
   CASE o.a = "obs"   -> IF n > 0 /\ Len(o.v) # HElems(as) THEN Err(as, "RuntimeError")
-                        ELSE {Out([as EXCEPT !.hist = Append(as.hist, o.v)], [t |-> "ok"])}
+                        ELSE {Out([as EXCEPT !.hist = Append(as.hist, o.v), !.steps = Append(as.steps, as.dtk)],
+                                  [t |-> "ok"])}
     [] o.a = "peek"  -> IF n = 0 THEN {Out(as, None)} ELSE {Out(as, [t |-> "val", v |-> RecordedRow(as, 0)])}
     [] o.a = "dump"  -> IF n = 0 THEN {Out(as, None)}
                         ELSE {Out(as, [t |-> "dump", vs |-> [j \in 1..as.n |-> RecordedRow(as, j - 1)]])}
@@ -198,7 +209,8 @@ AApplyR(as, o) ==
                                   THEN Err(as, "ValueError")
                              ELSE {Out(as, [t |-> "view", r |-> [e \in 1..HElems(as) |->
                                                   AViewElem(as, e, tv[e], o.tol2)]])}
-    [] o.a = "clear" -> {Out([as EXCEPT !.hist = <<>>], [t |-> "ok"])}
+    [] o.a = "clear" -> {Out([as EXCEPT !.hist = <<>>, !.steps = <<>>], [t |-> "ok"])}
+    [] o.a = "setdt" -> {Out([as EXCEPT !.dtk = o.x], [t |-> "ok"])}
 
 (***************************************************************************)
 (* Correspondence: the ring holds, k steps back, the closed form of the     *)
@@ -220,11 +232,11 @@ Corr(ms, as) ==
 \* covers on-grid and off-grid times alike
 TraceAt(as, e, tau) ==
   LET n == Len(as.hist)
-      D == as.dtk
-      M == {j \in 1..n : as.hist[j][e].m /\ (n - j) * D >= tau}
+      now(j) == SumFrom(as.steps, j + 1)                          \* age of event j now
+      M == {j \in 1..n : as.hist[j][e].m /\ now(j) >= tau}
       amp(j) == IF as.rk \in ScaledKinds
-                THEN {Term("A", "q", (n - j) * D - tau, 1)} \cup Mono("S", "q", (n - j) * D - tau, as.hist[j][e].x)
-                ELSE {Term("A", "q", (n - j) * D - tau, 1)}
+                THEN {Term("A", "q", now(j) - tau, 1)} \cup Mono("S", "q", now(j) - tau, as.hist[j][e].x)
+                ELSE {Term("A", "q", now(j) - tau, 1)}
   IN IF as.rk \in CumKinds THEN UNION {amp(j) : j \in M}
      ELSE IF M = {} THEN Zero ELSE amp(MaxOf(M))
 =============================================================================
